@@ -92,6 +92,22 @@ Lock(steps, k, m) ==
                                               /\ SameObs(Obs(r.s), o)}
          IN IF C = {} THEN k ELSE Lock(steps, k + 1, (CHOOSE r \in C : TRUE).s)
 
+\* state invariants C03..C06 "after every accepted user action, undo or redo", along whole sessions
+NoDupL(j) == Cardinality({<<p[1], p[2]>> : p \in Rng(j.t2n)}) = Len(j.t2n)
+             /\ Cardinality({<<p[1], p[2]>> : p \in Rng(j.l2n)}) = Len(j.l2n)
+StateOK(name, j) ==
+    LET O == DecO(j) IN
+    CASE name = "C03" -> Forest(O)
+      [] name = "C04" -> Forest(O) => TidOK(O)
+      [] name = "C05" -> Forest(O) => LidOK(O)
+      [] name = "C06" -> (Forest(O) /\ TidOK(O) /\ LidOK(O)) => (LookupOK(O) /\ NoDupL(j))
+      [] name = "C07" -> Forest(O) => SegOK(O)
+      [] name = "C08" -> (Forest(O) /\ SegOK(O)) => (AreaOK(O) /\ PosOK(O) /\ ShapeOK(O))
+      [] name = "C09" -> (Forest(O) /\ SegOK(O)) => IoUOK(O)
+      [] OTHER -> TRUE
+RECURSIVE FirstBad(_, _, _)
+FirstBad(steps, k, name) == IF k > Len(steps) THEN 0
+                            ELSE IF ~StateOK(name, steps[k].post) THEN k ELSE FirstBad(steps, k + 1, name)
 Bump(k) == TLCSet(k, TLCGet(k) + 1)
 Add(k, v) == TLCSet(k, TLCGet(k) + v)
 Rec == Recs[i]
@@ -100,7 +116,9 @@ Report ==
     LET init == DecO(Rec.init)
         w    == Walk(Rec.steps, 1, <<init>>, 1)
     IN /\ Bump(1) /\ Add(2, Len(Rec.steps)) /\ Add(3, NUndoRedo(Rec.steps))
-       /\ (w = 0 \/ PrintT(<<"FAIL", "C02", i, w>>))
+       /\ (("C02" \in Check) => (w = 0 \/ PrintT(<<"FAIL", "C02", i, w>>)))
+       /\ \A name \in Check \cap {"C03", "C04", "C05", "C06", "C07", "C08", "C09"} :
+             LET b == FirstBad(Rec.steps, 1, name) IN (b = 0 \/ PrintT(<<"FAIL", name, i, b>>))
        /\ (("REF" \in Check) =>
              LET d == Lock(Rec.steps, 1, ModelOf(init)) IN (d = 0 \/ PrintT(<<"DRIFT", i, d>>)))
 Inv == Report
